@@ -591,7 +591,7 @@ def replay(case):
         from mc.checks import c04_amb
 
         return c04_amb.replay(case)
-    if case.get("part") in ("zero_limits", "reused_hashers", "versioned"):
+    if case.get("part") in ("zero_limits", "reused_hashers", "versioned", "aliases"):
         from mc.checks import c04_zero
 
         return c04_zero.replay(case)
@@ -753,6 +753,8 @@ def run(ctx):
     ctx.merge(core.pmap(c04_zero.work_reuse, c04_zero.tasks_reuse()), part="reused_hashers")
     # part "versioned": a scheme that flags its own outdated format version (bcrypt_sha256 v1 / v2)
     ctx.merge(core.pmap(c04_zero.work_versioned, c04_zero.tasks_versioned()), part="versioned")
+    # part "aliases": legacy spellings and positional arguments of the decisions
+    ctx.merge(core.pmap(c04_zero.work_aliases, c04_zero.tasks_aliases()), part="aliases")
     ctx.cov["states"] = acc.counters["states"]
     ctx.cov["transitions"] = acc.counters["transitions"]
     ctx.cov["traces_validated_against_impl"] = acc.counters["histories"]
